@@ -1,4 +1,5 @@
 import Swat4.Model.UseCases.Discovery
+import Swat4.Spec.ProbeOutcome
 import Swat4.Gen.Facts
 import Swat4.Lemmas.C13Run
 import Swat4.Lemmas.C13Exp
@@ -6,6 +7,7 @@ import Swat4.Lemmas.C13Race
 import Swat4.Lemmas.C13Bridge
 import Swat4.Lemmas.C13Exp20
 import Swat4.Lemmas.C13Budget
+import Swat4.Lemmas.UseCaseMore
 /-!
 # C13 — A probe outcome transforms the latest server state and nothing else
 
@@ -16,42 +18,10 @@ model `detailsprober`, `portprober` and `probeserver`; `AbsState.update` is the 
 namespace Swat4.C13
 open Swat4 Swat4.UC Std Swat4.C13Run
 
-/-! ## the transformation table: all 512 words × 2 goals × 3 outcomes -/
+/-! ## the transformation table: all 512 words × 2 goals × 3 outcomes
 
-inductive Outcome where
-  | success | retry | failure
-  deriving DecidableEq, Repr
-
-/-- declarative per-bit specification, written from the property text.  Bit indices:
-0 new, 1 master, 2 info, 3 details, 4 details_retry, 5 no_details, 6 port, 7 port_retry, 8 no_port.
-`new` ("no status yet") is cleared by every recorded outcome. -/
-def specBit (g : Goal) (o : Outcome) (i : Nat) (old : Bool) : Bool :=
-  match g, o, i with
-  | _, _, 0 => false
-  -- success: info and details (and port) set; failure and retry marks of the goal cleared
-  | .details, .success, 2 => true
-  | .details, .success, 3 => true
-  | .details, .success, 4 => false
-  | .details, .success, 5 => false
-  | .port, .success, 2 => true
-  | .port, .success, 3 => true
-  | .port, .success, 4 => false
-  | .port, .success, 5 => false
-  | .port, .success, 6 => true
-  | .port, .success, 7 => false
-  | .port, .success, 8 => false
-  -- a failure with retries left only adds the retry mark
-  | .details, .retry, 4 => true
-  | .port, .retry, 7 => true
-  -- the final failure: no details (dropping info/details/port and the mark) or no port
-  | .details, .failure, 2 => false
-  | .details, .failure, 3 => false
-  | .details, .failure, 4 => false
-  | .details, .failure, 5 => true
-  | .details, .failure, 6 => false
-  | .port, .failure, 7 => false
-  | .port, .failure, 8 => true
-  | _, _, _ => old
+`Outcome` and the declarative per-bit specification `specBit` live in `Spec/ProbeOutcome.lean` (same namespace, core only), so
+that the driver's `table` oracle evaluates the very definition the theorems below are about. -/
 
 def modelStatus (g : Goal) : Outcome → Status → Status
   | .success => successStatus g
@@ -1099,5 +1069,90 @@ example : C13Budget.QueueOK {} ∧ expFloor ((4 : Int) + 1) = 148 ∧ (148 : Int
 /-- the nine status bits and their names are the ones of `ds.Members()` / `BitString()` in the source
 (regenerated `Gen/Facts.lean`) -/
 theorem facts_ok : Facts.dsMemberValues = Status.members.map (·.toNat) ∧ Facts.dsMemberNames = Status.names := by decide
+
+/-- **the driver's `table` oracle is the specification of `outcome_table`, as a word**: `specWord` (`Spec/ProbeOutcome.lean`: the
+nine `specBit`s assembled into a number — what `Drv/C13.lean` compares the implementation's word with) equals the model's
+transformed word for every status word, goal and outcome.  So the oracle side (`specWord`) and the model side (`UC.*Status`) of
+the `table` verdict are two definitions of different origin that are proved to coincide — exhaustively, by kernel evaluation. -/
+theorem specWord_is_model (g : Goal) (o : Outcome) : ∀ w : Status, specWord g o w.toNat = (modelStatus g o w).toNat := by
+  cases g <;> cases o <;> decide
+
+/-! ## the programs `usecases_callbacks_stable` left out (third outside review, item 6) -/
+
+/-- **`usecases_callbacks_stable`, the two remaining client programs.**  The list of `usecases_callbacks_stable` is written by
+hand; two programs the drivers run as clients were not in it: `Heartbeat6.renewIP` (the keepalive use case with the request's
+`net.IP` as it is — an `Update` with a callback — run by the `dg6` op) and the prober runner `UC.proberRunWith` / `UC.proberRun`
+(`PopMany(n)`, then `UC.probe` for every popped probe in any order with any outcomes; the program of a `pop|<n>|<outcome>`
+client).  Both are `VerMono.ProgStable`: every conflict callback they can pass leaves address and version alone and they never
+issue a `Remove` — so `prog_version_mono`, `Others` (`others_run`) and the `_at` race theorems apply to them as concurrent
+activities as well. -/
+theorem usecases_callbacks_stable_more :
+    (∀ i ip, VerMono.ProgStable (Heartbeat6.renewIP i ip)) ∧
+    (∀ n oc order, VerMono.ProgStable (UC.proberRunWith n oc order)) ∧
+    (∀ n outcome, VerMono.ProgStable (UC.proberRun n outcome)) :=
+  ⟨UseCaseMore.renewIP_stable, UseCaseMore.proberRunWith_stable, UseCaseMore.proberRun_stable⟩
+
+/-- … hence the hypothesis `KeyPreserving` of the C09 theorems (`C09.usecases_resolvers_key_preserving`, whose hand-written list
+has the same gap; `Properties/C09.lean` is not restated for it) holds for every registry write of these two programs too:
+`KeyPres.of_progStable`, `ProgAddrPreserving.key`. -/
+theorem usecases_more_key_preserving :
+    (∀ i ip, KeyPres.ProgKeyPreserving (Heartbeat6.renewIP i ip)) ∧
+    (∀ n oc order, KeyPres.ProgKeyPreserving (UC.proberRunWith n oc order)) ∧
+    (∀ n outcome, KeyPres.ProgKeyPreserving (UC.proberRun n outcome)) :=
+  ⟨fun i ip => (KeyPres.of_progStable (UseCaseMore.renewIP_stable i ip)).key,
+   fun n oc order => (KeyPres.of_progStable (UseCaseMore.proberRunWith_stable n oc order)).key,
+   fun n o => (KeyPres.of_progStable (UseCaseMore.proberRun_stable n o)).key⟩
+
+/-! ## witnesses the review found missing (third outside review, item 7) -/
+
+/-- **the `Remove` disjunct of `probe_retry_race_any` is inhabited**: a removal of the probed server (`Remove` with the stored
+copy, as the removal use case and the cleaners issue it) commits between the probe's `Get` and its retry.  The theorem's SECOND
+disjunct holds: the address is gone, `W` is a `Remove`, the retry probe is queued all the same (one item, `retries = 1`, no
+expiry) and the run ends with `ErrServerNotFound` — the registry as the remover left it (empty). -/
+example :
+    let prb : Probe := ⟨abaStale.addr, 10481, .details, 0, 2⟩
+    let W := Call.removeServer abaStale fun x => some x
+    CallResStable W ∧ (W.exec abaState 9).1.getRow prb.addr = none ∧ ¬ VerMono.NoRemove W ∧
+    (raceRun (probe prb none) 1 8 W 9 10 abaState).2 = .error (.repo .serverNotFound) ∧
+    (raceRun (probe prb none) 1 8 W 9 10 abaState).1.servers.toList = [] ∧
+    ((raceRun (probe prb none) 1 8 W 9 10 abaState).1.queue.map fun q => (q.probe.retries, q.expires)) = [(1, none)] := by
+  intro prb W
+  rcases probe_retry_race_any abaState 8 9 10 prb abaStale 5 W trivial abaState_keyed aba_witness.1 (by decide) with
+    ⟨w, uw, hw, _, _⟩ | ⟨hn, hrem, hrun⟩
+  · have hnone : (W.exec abaState 9).1.getRow prb.addr = none := by decide
+    rw [hnone] at hw; cases hw
+  · exact ⟨trivial, hn, hrem, by rw [hrun], by decide, by decide⟩
+
+/-- instance of `probe_failure_race_any` (the final failure, `retries = max = 2`): the keepalive's `Update` commits between the
+probe's `Get` and its failure `Update`; the FIRST disjunct holds — the record the keepalive left is there, unchanged or newer
+than what the probe read (here: one version up) — and the run ends `outOfRetries` with nothing re-queued -/
+example :
+    let prb : Probe := ⟨abaStale.addr, 10481, .details, 2, 2⟩
+    let W := Call.updateServer { abaStale with refreshedAt := some 9 } fun s => some { s with refreshedAt := some 9 }
+    (∃ (w : Server) (uw : Int), (W.exec abaState 9).1.getRow prb.addr = some ⟨w, uw⟩ ∧ (w.version > abaStale.version ∨ w = abaStale)) ∧
+    (raceRun (probe prb none) 1 8 W 9 10 abaState).2 = .outOfRetries ∧
+    (raceRun (probe prb none) 1 8 W 9 10 abaState).1.queue = [] := by
+  intro prb W
+  rcases probe_failure_race_any abaState 8 9 10 prb abaStale 5 W (fun s r h => by cases h; exact ⟨rfl, rfl⟩) abaState_keyed
+    aba_witness.1 (by decide) with ⟨w, uw, hw, hm, hrun⟩ | ⟨_, hrem, _⟩
+  · exact ⟨⟨w, uw, hw, hm⟩, by rw [hrun], by decide⟩
+  · exact absurd trivial hrem
+
+/-- instance of `probe_success_race_any`: the same keepalive between the probe's `Get` and its success `Update`; the FIRST
+disjunct holds, the run ends `success`, and the stored record carries the keepalive's work one more version up (version 5 =
+3 + the keepalive's + the probe's) with the probe's refresh time `now = 10` -/
+example :
+    let prb : Probe := ⟨abaStale.addr, 10481, .details, 0, 2⟩
+    let res : ProbeResult := ⟨⟨[], [], []⟩, 10481⟩
+    let W := Call.updateServer { abaStale with refreshedAt := some 9 } fun s => some { s with refreshedAt := some 9 }
+    (∃ (w : Server) (uw : Int), (W.exec abaState 9).1.getRow prb.addr = some ⟨w, uw⟩ ∧ (w.version > abaStale.version ∨ w = abaStale)) ∧
+    (raceRun (probe prb (some res)) 1 8 W 9 10 abaState).2 = .success ∧
+    ((raceRun (probe prb (some res)) 1 8 W 9 10 abaState).1.getRow prb.addr).map (fun row => (row.svr.version, row.svr.refreshedAt)) =
+      some (5, some 10) := by
+  intro prb res W
+  rcases probe_success_race_any abaState 8 9 10 prb res abaStale 5 W (fun s r h => by cases h; exact ⟨rfl, rfl⟩) abaState_keyed
+    aba_witness.1 with ⟨w, uw, hw, hm, hrun⟩ | ⟨_, hrem, _⟩
+  · exact ⟨⟨w, uw, hw, hm⟩, by rw [hrun], by decide⟩
+  · exact absurd trivial hrem
 
 end Swat4.C13
